@@ -22,8 +22,8 @@ TABLE: dict[str, dict[str, str]] = {
     "C03": dict(cat="other", tech="type-flow and who-may-write rules on the op list (no pseudo-op survives, target appended last, offset sources, table lengths); compile() interpreted on program families and macro projects: offsets unique, jump targets closed, no pseudo op, tables of one length",
                 text="Decides the structural half of every clause of C03 for all programs: only real ops reach routine_ops, the jump target is appended last and agrees with the decompiler's index table, every offset comes from the monotone counter or replaces an op one-for-one, label offsets denote surviving ops, the three routine tables grow together. Not decided: raw user-written jump opcodes.",
                 note="CPython ast; folded tables of ssb_special_ops.", ref="§4 C03"),
-    "C04": dict(cat="other", tech="escape/unescape table agreement, quoted-hole escaping, numeral-shape vs. token-language inclusion, parameter-type exhaustiveness; print -> parse identity with printers and readers interpreted on a table of values built from the character classes the printers distinguish, in three printing contexts and several depths",
-                text="Decides the table-level half of print/parse identity: escape pairs of printer and reader, escaping of every quoted interpolation, that printed numerals are tokens of the grammar, that every parameter type has a printer and a parse path, integer base handling. Value-dependent parts (multi-line dedent arithmetic) are not decided. R7 evaluates the value table; other values are covered by the table-level rules.",
+    "C04": dict(cat="other", tech="escape/unescape table agreement, quoted-hole escaping, numeral-shape vs. token-language inclusion, parameter-type exhaustiveness; print -> parse identity with printers and readers interpreted on a table of values built from the character classes the printers distinguish, in three printing contexts and several depths; every op with special syntax x value classes per parameter slot through the interpreted decompiler and compiler",
+                text="Decides the table-level half of print/parse identity: escape pairs of printer and reader, escaping of every quoted interpolation, that printed numerals are tokens of the grammar, that every parameter type has a printer and a parse path, integer base handling. Value-dependent parts (multi-line dedent arithmetic) are not decided. R7 evaluates the value table; other values are covered by the table-level rules. R8 decides the statements with special syntax (operator tables, dungeon-mode constants, flag forms, the performance variable) for one value of every class per slot.",
                 note="re._parser for regexes built from the .g4 token rules.", ref="§4 C04"),
     "C05": dict(cat="other", tech="def-use/typestate rules on ExplorerScriptMacro.build (fresh labels, return->jump-to-end, parameter substitution), call binding, import resolution order, dependency-order rule; compile() interpreted on multi-file macro projects (virtual files) against hand-inlined programs by bisimulation; meaningless projects rejected",
                 text="Decides the expansion template of build(), the binding of arguments to macro variables, the import search order and the recursion guard, and that the macro order is produced by a topological sort of the dependency graph. Behaviour of expanded ops inherits C01's limits.",
@@ -43,9 +43,9 @@ TABLE: dict[str, dict[str, str]] = {
     "C10": dict(cat="other", tech="raise-set inference over the resolved call graph vs. the documented exception classes; presence table of documented rejections; stack pairing; parse-listener guard; whole compiler interpreted on the meaningless and degenerate program shapes of the specification (rejected with a documented error, nothing else escapes); counter-indexed loop conditions are bounded",
                 text="Decides that no explicitly raised exception class other than ParseError/SsbCompilerError/ValueError can leave compile(), that every documented rejection has its raise site, that loop/case stacks are paired, and two named implicit-exception patterns. Implicit exceptions in general are not decided.",
                 note="Narrowing asserts (is not None / isinstance) are assumed not to fire.", ref="§4 C10"),
-    "C11": dict(cat="other", tech="shared-state inventory (who-may-write), reset-before-use on compile(), input non-mutation, memo-clear typestate; call histories evaluated in one interpreter instance against a fresh one",
+    "C11": dict(cat="other", tech="shared-state inventory (who-may-write), reset-before-use on compile(), input non-mutation, memo-clear typestate; call histories evaluated in one interpreter instance against a fresh one; no order-visible iteration over a set of strings or enum members (hash randomisation)",
                 text="Decides that the only run-time written shared cells are the audited ones, that class-level mutable defaults are shadowed per instance, that compile() resets its result attributes before anything can raise, and that decompilation writes to its input only through the audited indent cell.",
-                note="Process restarts, GC timing and igraph internals are outside.", ref="§4 C11"),
+                note="GC timing and igraph internals (address-based hashes of graph elements) are outside.", ref="§4 C11"),
     "C12": dict(cat="other", tech="confinement: shared-state inventory + memo keyed by a call-local graph object",
                 text="Decides confinement: two concurrent calls share no mutable state beyond the audited memo table, whose entries are keyed by the id of a graph local to one call. Interleavings inside the ANTLR runtime are not decided.",
                 note="CPython's GIL makes single dict operations atomic; ANTLR runtime caches and igraph are outside the analysis.", ref="§4 C12"),
@@ -55,14 +55,14 @@ TABLE: dict[str, dict[str, str]] = {
     "C14": dict(cat="other", tech="sibling/writer-reader field agreement on serialize/deserialize/__init__, equality coverage, shape rule on rewrite_offsets; serialize/deserialize/rewrite_offsets interpreted on maps of an interpreted macro project under nine offset mappings",
                 text="Decides for all maps: field order and JSON keys agree between writer and reader, int keys and tuples are restored, SourceMap.__eq__ compares value-comparable entries, rewrite_offsets rebuilds both tables through the mapping and moves return addresses forward to the next surviving op.",
                 note="CPython ast; json module semantics (arrays come back as lists, keys as strings).", ref="§4 C14"),
-    "C15": dict(cat="other", tech="tag-table agreement compile CLI / decompile CLI / docs, offset-renumbering rule, coroutine-id rule, docs example types vs. reader operations, exit paths; build_routines_json/read_routines interpreted on compiled programs",
-                text="Decides that the type tags and keys written by the compile CLI equal those read by the decompile CLI and those documented, that jump parameters are translated to list positions, that coroutine names are registered under their routine index, that documented JSON leaf types are accepted, and that no error path exits with status 0.",
+    "C15": dict(cat="other", tech="tag-table agreement compile CLI / decompile CLI / docs, offset-renumbering rule, coroutine-id rule, docs example types vs. reader operations, exit paths; build_routines_json/read_routines interpreted on compiled programs; the __main__ blocks of both command-line modules interpreted on a virtual file system (argument vector, working directory, exit status, standard output/error, files written)",
+                text="Decides that the type tags and keys written by the compile CLI equal those read by the decompile CLI and those documented, that jump parameters are translated to list positions, that coroutine names are registered under their routine index, that documented JSON leaf types are accepted, and that no error path exits with status 0. R7 runs both commands as programs on 22 scenarios: the documented call, the structure of the printed document, compile | decompile | compile, a document with every documented routine and argument type, 17 success/failure statuses.",
                 note="reST reader for docs/cli_api_usage.rst.", ref="§4 C15"),
     "C16": dict(cat="other", tech="grammar facts (skip channel, lexer order, alternative spellings) + position taint in the compiler + spelling tables; re-spellings of a base program compiled with the whole compiler interpreted: identical ops, routine table, marks",
                 text="Decides that whitespace/comments/line joining are skipped, keywords precede IDENTIFIER, both label and target spellings exist and map to the same values, and that token positions and skipped tokens flow only into source-map calls and messages. ANTLR's prediction on arbitrary token juxtapositions is not decided.",
                 note="Generated lexer/parser are assumed to implement the .g4 files (name tables are compared).", ref="§4 C16"),
-    "C17": dict(cat="proof", tech="regex nullability and first-set totality over the Pygments token table",
-                text="Proof over the token table: every rule regex is non-nullable (termination), every action is a plain token type (losslessness), and in every enterable state the rules that are certain to match from their first character cover the alphabet reachable there in accepted sources (no Error token).",
+    "C17": dict(cat="proof", tech="regex nullability, first-set totality and exponential-ambiguity (product automaton) analysis over the Pygments token table; the table run by a model of the RegexLexer loop, and through a driver override if the class has one, on sample texts",
+                text="Proof over the token table: every rule regex is non-nullable (termination), every action is a plain token type (losslessness), and in every enterable state the rules that are certain to match from their first character cover the alphabet reachable there in accepted sources (no Error token, also not by an explicit Error action); no pattern has a loop that is ambiguous before a part that can fail (catastrophic backtracking); R6 lexes 36 sample texts with the table itself.",
                 note="Trusted: pygments RegexLexer.get_tokens_unprocessed main loop, re._parser, equivalence of words() with an alternation.", ref="§4 C17"),
     "C18": dict(cat="other", tech="visitor traversal rule against grammar reachability, span-expression shape rule, shared argument parser (sibling agreement); the listing visitor interpreted on sample sources against the grammar's own parse tree; printed marks compiled back",
                 text="Decides that the position-mark visitor cuts no subtree that can contain a Position literal, aggregates in visit order, builds spans from start.line-1/start.column/stop.line-1/stop.column of the literal's own context, and shares handler classes and the argument parser with the compiler.",
